@@ -41,7 +41,7 @@ def run(chk):
   # 1. the model: TLC proves the invariant and the action property on the intended semantics
   mc = ['C03_list.cfg', 'C03_list2_cov.cfg', 'C03_nest.cfg', 'C03_obj.cfg', 'C03_objp.cfg', 'C03_dict_cov.cfg', 'C03_dictp_2.cfg']
   if thorough:
-    mc += ['C03_dict.cfg', 'C03_dictp.cfg', 'C03_list2.cfg', 'C03_list_deep.cfg', 'C03_dict_deep.cfg', 'C03_obj_deep.cfg']
+    mc += ['C03_dict.cfg', 'C03_dictp.cfg', 'C03_list2.cfg', 'C03_list_deep.cfg', 'C03_obj_deep.cfg']
   for cfg in mc:
     typedtree.model_check(chk, cfg)
   # vacuity of the exhaustive runs: every action has transitions out of the initial states (depth-1 state graph)
@@ -66,7 +66,7 @@ def run(chk):
   # 2a. TLC searches the size checks *as coded* for a violation of Conforms; the counter-example is replayed
   typedtree.mirror_search(chk, 'C03_mirror.cfg', 'list', False, hits, models['list'])
   # 2b. simulated behaviours; the second pass stays away from the two mechanisms with open findings
-  n1, d1, n2, d2 = (100, 15, 100, 30) if not thorough else (1000, 25, 1000, 40)
+  n1, d1, n2, d2 = (100, 15, 100, 30) if not thorough else (800, 25, 800, 40)
   for kind, partial, tag in KINDS:
     add(typedtree.replay_simulated(chk, kind, partial, f'C03_sim_{tag}.cfg', n1, d1, chk.seed, models[kind]))
     if (thorough or not partial) and kind != 'list2':      # (the list2 configuration is an Avoid pass itself)
